@@ -6,6 +6,8 @@ import shapes as S
 import knotops as KO
 
 PID = 'C06'
+FLOAT_KINDS = {'ins-rem', 'ins-rem-method'}      # float-mode companion; 'refine-rem' asks for the removal of a midpoint the harness computes exactly, which in doubles need not be bit-identical to the refined knot
+FLOAT_TOL = 1e-7
 STATS = G.STATS
 PARTIAL = [
     "proved in Lean (Props/C06.lean, every degree / position / prior multiplicity / count): r insertions of a knot followed "
